@@ -361,6 +361,8 @@ func extractFacts(args []string) {
 		trWrite(*repo, filepath.Dir(*out))
 		// the same for the syntax layer (trans_syntax*.go): TransDirectives/TransScanner/TransParser.lean, TransSyntax.lean
 		tsWrite(*repo, filepath.Dir(*out))
+		// natefinch/atomic.WriteFile in an explicit world (trans_units_atomic.go): TransAtomic.lean
+		atWrite(*repo, filepath.Dir(*out))
 		// census of order-sensitive sites (facts_c06.go): Census.lean; differences to the reviewed expectation are printed as `census-…-site …`
 		extractCensusC06(*repo, filepath.Dir(*out))
 	}
